@@ -135,6 +135,12 @@ class SeqOf(T):
         self.elem = elem
 
 
+class OutFile(T):
+    """Ghost output file: records every write; formatted numbers accumulate in .nums (z3 Seq)."""
+
+    kind = "OutFile"
+
+
 def Vec3():
     return ListOf(Real, 3)
 
@@ -219,7 +225,8 @@ def harness(prop, params, **kw):
 class Loop:
     """Loop contract, keyed by ordinal within the function and by its shape."""
 
-    def __init__(self, shape, invariants, modifies=None, variant=None, index=None, summary=None):
+    def __init__(self, shape, invariants, modifies=None, variant=None, index=None, summary=None, ghost=None):
+        self.ghost = ghost or {}
         self.shape = shape  # expected ast.unparse of the iterable / while-test
         self.invariants = list(invariants)
         self.modifies = modifies  # None = syntactic assigned names
@@ -237,12 +244,18 @@ def iff(a, b):
     return bool(a) == bool(b)
 
 
+def _app(pred, x):
+    if pred.__code__.co_argcount > 1:
+        return pred(*x)
+    return pred(x)
+
+
 def forall(it, pred):
-    return all(pred(x) for x in it)
+    return all(_app(pred, x) for x in it)
 
 
 def exists(it, pred):
-    return any(pred(x) for x in it)
+    return any(_app(pred, x) for x in it)
 
 
 def approx(a, b, tol=1e-6):
